@@ -35,6 +35,31 @@ CHECKS = {
              'check delimiter-safety, sequence membership of every escape char, idempotence, the fixed point on well-formed '
              'text, and count preservation of datatype-object assignment inside messages.',
         note='trusts er7ref.well_formed/ref_escape; CR not in the alphabet'),
+    'C09': dict(
+        technique='runtime monitoring: lock-step execution against an ordered-list reference model over operation histories',
+        category='exploration', design='DESIGN.md §4 C09',
+        text='Histories of set/add/delete/remove/copy operations (by name, long name, position, index; from proxies and from '
+             'elements of another parent) run on real segments, fields and messages of every version while a plain ordered-list '
+             'model executes the same history; after every operation to_er7() must equal the model encoding. Exhaustive for short '
+             'histories over a reduced alphabet, seeded random up to length 30.',
+        note='the model is the ordered-list semantics of the statement; operations are generated state-aware to be valid'),
+    'C10': dict(
+        technique='runtime monitoring: structural invariants I1-I6 asserted at a hook after every library call of random API histories',
+        category='exploration', design='DESIGN.md §4 C10',
+        text='Random histories (valid edits, re-attachment, double add, own-repetition assignment, parent= construction, list-view '
+             'deletions, shadow reads, value/children assignment, rejected calls) on segments, fields and messages of every '
+             'version and both levels; after every call, successful or rejected, a walker asserts parent/lister agreement, '
+             'single listing, index/list agreement, view agreement, shadow-children separation and version/level uniformity.',
+        note='walker reads __dict__/children.list only'),
+    'C12': dict(
+        technique='runtime monitoring: deep-snapshot comparison around every rejected library call (fault enumeration over reachable states)',
+        category='fault_enumeration', design='DESIGN.md §4 C12',
+        text='Every rejection cause (wrong class/name, foreign element, level/version mismatch via add and via assignment, '
+             'cardinality overflow, invalid value, absent deletions, datatype change on populated elements, foreign value text, '
+             'children=[ok,bad], non-element) is injected at states reached by bounded histories; a guard snapshots all trees '
+             'before each library call and, when it raises, requires equal snapshots and an unchanged parent pointer of the '
+             'offered child.',
+        note='snapshot = encoding, classes, names, datatypes, leaf values, identity and order of listed children'),
     'C13': dict(
         technique='runtime monitoring: three-valued lexical-grammar oracle over exhaustive string / time / offset / calendar grids',
         category='exploration', design='DESIGN.md §4 C13',
